@@ -48,6 +48,7 @@ Definition dout_eqb (a b : dout) : bool :=
   | DErr x, DErr y => N.eqb x y
   | DClosed x, DClosed y => N.eqb x y
   | DWrote x, DWrote y => Bool.eqb x y
+  | DRet, DRet | DLeaked, DLeaked => true
   | _, _ => false
   end.
 
